@@ -41,13 +41,13 @@ pub fn representatives(v: &Fe, n: usize) -> Vec<U320> {
     let r = U320::modulus();
     let mut cur = U320::from_fe(v);
     let lim = if n >= 319 { None } else { Some(U320::pow2(n)) };
-    for _ in 0..4 {
+    for _ in 0..6 {
         match &lim {
             Some(l) if !cur.lt(l) => break,
             _ => {}
         }
         out.push(cur);
-        if cur.bits() >= 318 {
+        if cur.bits() >= 300 {
             break;
         }
         cur = cur.add(&r);
